@@ -69,6 +69,15 @@ def r1_one_docstring_read(ctx, rep):
     for a, d in zip(pos[len(pos) - len(rd.args.defaults):], rd.args.defaults):
         if isinstance(d, ast.Constant):
             defaults[a.arg] = d.value
+    for a, d in zip(rd.args.kwonlyargs, rd.args.kw_defaults):
+        if isinstance(d, ast.Constant):
+            defaults[a.arg] = d.value
+    # ... unless some call site sets the switch
+    for _m, f2 in py.all_functions():
+        for c in py.walk_calls(f2):
+            if call_name(c).split(".")[-1] == "read_docstring":
+                for k_ in astq.bind_args(c, rd):
+                    defaults.pop(k_, None)
     marker_p = rd.args.args[1].arg
     # the full marker: the parameter itself (re-bound to "!" + marker) or a local built from it
     markers = {marker_p}
